@@ -124,7 +124,7 @@ FAMILIES = {
         replays=[dict(mode="app", controls="nopause,nopt", swap=False)]),
     "TOUREDGE": dict(  # transition tour: every transition of the COMPLETE pause-state graph (shortest history + the input)
         mc=("MC_Pause", "MC_Pause.cfg", {"quick": {"PauseSet": '"small"'}, "thorough": {"PauseSet": '"small"'}}),
-        gens=[("Gen_Pause", "Gen_Pause.cfg", "tour", {"quick": dict(sample=200, consts={"GenSet": '"full"', "PauseSet": '"small"', "TourMode": '"edges"'}),
+        gens=[("Gen_Pause", "Gen_Pause.cfg", "tour", {"quick": dict(sample=160, consts={"GenSet": '"small"', "PauseSet": '"small"', "TourMode": '"edges"'}),
                                                     "thorough": dict(sample=1, consts={"GenSet": '"full"', "PauseSet": '"small"', "TourMode": '"edges"'})})],
         replays=[dict(mode="app", controls="nopause,nopt", swap=False)]),
     "RPCS": dict(      # every Msg RPC registered by the module (from the service descriptors) x every signer class
@@ -221,11 +221,18 @@ def run_family(fam, tier, seed, wd, specdir, report):
     mod, cfg, consts = F["mc"]
 
     def mc_one(sh):
-        return model_check(specdir, mod, cfg, dict(consts[tier], **sh), timeout=7200, workers=nw, tag=stable_hash(sh)[:6])
+        # one model-checking run per (module, constants) and check: families sharing a model (PAUSE, TOUR,
+        # TOUREDGE) reuse the result of the run made earlier in the same check
+        key = stable_hash([mod, cfg, consts[tier], sh])
+        cache = report.setdefault("mc_cache", {})
+        if key not in cache:
+            cache[key] = model_check(specdir, mod, cfg, dict(consts[tier], **sh), timeout=7200, workers=nw, tag=stable_hash(sh)[:6])
+        return cache[key]
     with ThreadPoolExecutor(max_workers=min(len(shards), 8)) as ex:
         mcs = list(ex.map(mc_one, shards))
     for mc in mcs:
-        report["mc"].append(mc)
+        if mc not in report["mc"]:
+            report["mc"].append(mc)
     log("model checking %s %s x %d shard(s): %d states, %d transitions, %.0fs" % (
         mod, consts[tier], len(shards), sum(m["states"] for m in mcs), sum(m["transitions"] for m in mcs), max(m["wall_s"] for m in mcs)))
     # 2. generation
